@@ -261,6 +261,9 @@ VERUS = {
     'clone': dict(props=['C11', 'C02'], tier='quick',
                   desc='RawTable::clone_from_impl on extracted text (no-unwind path; its guard closure is in unit glue), for every table size and both widths, element identities ghost, T::clone an arbitrary function of the element: the control bytes of the target are the source\'s verbatim (so tombstones, probe chains and reachability are reproduced), items and growth_left are copied, and every FULL bucket holds a clone of the source\'s element in the same bucket; every control-byte and bucket access in bounds; terminates',
                   paired={}),
+    'pardrain': dict(props=['C19', 'C03'], tier='quick',
+                     desc='rayon ParDrainProducer on extracted text (src/external_trait_impls/rayon/raw.rs) together with the RawIterRange functions it uses: split (the two halves partition what the producer owned), fold_with against an ARBITRARY consumer that may report full at any time (a prefix of the ascending enumeration is handed to the consumer, the rest is dropped by the Drop impl that Rust runs at the early return -- written out by rule R35 -- so every element is consumed or dropped exactly once; when the range is exhausted the producer is forgotten and nothing is left), Drop (exactly the elements not yet handed out, each once)',
+                     paired={}),
     'assoc': dict(props=['C01', 'C06'], tier='quick',
                   desc='lemma-only unit over the contracts of units ctrl / rehash / resize: what rehash_in_place and resize_inner establish (every FULL bucket placed) is the reachability invariant F2 that insert and erase are proved to preserve; and lookup BY KEY: for a lawful Eq (the closure accepts exactly the buckets holding an element with key k) and a lawful Hash (such elements were stored under the probed hash), find_inner answers Some exactly when an element with key k is stored, and the bucket it returns holds one',
                   paired={}),
